@@ -536,7 +536,7 @@ impl Check for C16 {
     fn runs(&self, tier: Tier) -> u64 {
         match tier {
             Tier::Quick => 1_600,
-            Tier::Thorough => 160_000,
+            Tier::Thorough => 48_000,
         }
     }
 
